@@ -431,6 +431,10 @@ def explore(cond: Cond, budget: typing.Optional[float] = None, max_cex: int = 25
         if undo:
             undo()
 
+    # a concrete witness that violates the assertion is a counterexample in its own right
+    if cond.witness is not None and res["witness"]["outcome"] == "violation" and not res["cex"]:
+        res["cex"].append({"args": {k: enc(v) for k, v in cond.witness.items()},
+                           "symbolic_detail": "witness run: " + res["witness"]["detail"]})
     # replay each counterexample in plain CPython against the real code
     confirmed = []
     for c in res["cex"]:
